@@ -2,3 +2,8 @@ package defn
 
 // MaxNDNPacketSize is the maximum allowed NDN packet size
 const MaxNDNPacketSize = 8800
+
+// MinMTU is the smallest MTU a face may be given. It leaves room for the largest NDNLPv2 header
+// the link service emits (fragmentation, incoming face indication, PIT token and congestion mark
+// fields) plus some payload in every fragment.
+const MinMTU = 64
